@@ -27,7 +27,7 @@ func init() {
 			"started at r (menu of 10, thorough 1..31), and all ranges started at v in 1..7; the response must be byte-identical (accepted) / rejected again. " +
 			"(b) histories: every ordered pair of a 1-in-3 sub-corpus (thorough: all pairs + triples over a core) answers its baseline; state = fingerprint of all package-level variables. " +
 			"(c) fresh processes: the 16 worker processes compute all baselines independently and must agree; 3 of them repeat all requests 3x on the unpatched-behaviour runtime path (true randomness). " +
-			"(d) seeds: a recording generator factory shows every seed used comes from a *Seed field of the request (or the default 0); static scan: no time/crypto-rand/os import and no package-level math/rand function in lib or main.go. " +
+			"(d) seeds: a recording generator factory shows every seed used comes from a *Seed field of the request (or the default 0); static scan (notes only, never a verdict): time/crypto-rand/os imports and package-level math/rand functions in lib or main.go. " +
 			"states = fingerprints, transitions = executions, traces validated = executions whose response equalled the baseline.",
 		Assume: []string{"map-order control covers every map range executed between decoding and serialising the response (incl. encoding/json's), for maps of up to 2^1 buckets exhaustively (start bucket x offset)",
 			"goroutine scheduling is C10's subject; wall-clock independence is a static import scan (guard, not the deciding step)"},
@@ -328,8 +328,9 @@ func c02Run(s *Shard) {
 	if s.Idx == 0 {
 		if repo := os.Getenv("VERIF_REPO_DIR"); repo != "" {
 			for _, b := range c02StaticScan(repo) {
-				cc := &Case{Prop: "C02", Kind: "static", Params: M{"finding": b}}
-				s.Report([]Violation{viol(cc, "C02/nondeterminism-source-imported", "%s", b)})
+				// an import is not a dependence: reported as a note only (the dynamic clauses decide)
+				s.Notes = append(s.Notes, "static scan: "+b)
+				s.Count("static_scan_findings", 1)
 			}
 			s.Count("static_scan_done", 1)
 		}
